@@ -507,7 +507,19 @@ def c13(tapes, params):
         exps = {}
         for op, tx in zip(ops, texts):
             exps[tx] = (op, w.model.apply(op))
-        w.samples.append({'mode': mode, 'params': texts[:8], 'fault': kind, 'depth': depth, 'multiple': multiple, 'timeout': tmo})
+        # some parameters are (address, CIP type) pairs: read with Get Attribute Single and converted by
+        # the proxy from the raw bytes -- results of different declared types within one exchange
+        plist = list(texts)
+        for j, op in enumerate(ops):
+            t = w.model.tags[op['ref'][1].lower()]
+            if t.addr is not None and t.tname in ('INT', 'DINT', 'REAL', 'SINT', 'UINT', 'UDINT') and g.chance(1, 3, 'typed'):
+                gop = {'kind': 'gas', 'ref': ('addr', t.addr)}
+                par = ('@%d/%d/%d' % t.addr, t.tname)
+                if par not in exps:
+                    exps[par] = (gop, w.model.apply(gop))
+                    plist[j] = par
+        texts = plist
+        w.samples.append({'mode': mode, 'params': [repr(x) for x in texts[:8]], 'fault': kind, 'depth': depth, 'multiple': multiple, 'timeout': tmo})
         heal_at[0] = w.sched.now + g.choice([3.0, 12.0, 40.0], 'heal')
         via = m['get_attribute'].proxy('127.0.0.1', port=PORT, timeout=tmo, depth=depth, multiple=multiple,
                                       identity_default='sim')
